@@ -343,6 +343,58 @@ func (r *Runner) Run(cs *Case) {
 		unmarshal(w, c, d)
 	}
 }
+
+// SharedObj: a value marshalled and parsed BEFORE the goroutines start; afterwards every goroutine only READS the parsed value
+// (projection, MarshalBinary) - family f15s of the concurrent driver.
+type SharedObj struct {
+	c   codec
+	x   interface{}
+	m   []byte
+	obj interface{}
+}
+
+// Share prepares the shared value of a case (nil: the case is an octet string, or the value does not marshal / parse).
+func Share(cs *Case) *SharedObj {
+	var c codec
+	var x interface{}
+	switch cs.Kind {
+	case "rules":
+		c, x = rulesCodec, cs.rules
+	case "descs":
+		c, x = descsCodec, cs.descs
+	default:
+		return nil
+	}
+	var s *SharedObj
+	ev.Guard(func() {
+		m, err := c.marshal(x)
+		if err != nil {
+			return
+		}
+		obj, err := c.parse(append([]byte{}, m...))
+		if err != nil {
+			return
+		}
+		s = &SharedObj{c: c, x: x, m: m, obj: obj}
+	})
+	return s
+}
+
+// RunShared reads the shared value: the event has the shape of the family's RoundTrip event (value, its octets, the parsed
+// value as projected now, the octets MarshalBinary of the parsed value gives now) and is judged like one.
+func (r *Runner) RunShared(s *SharedObj) {
+	if s == nil {
+		return
+	}
+	e := newEv("RoundTrip", s.c)
+	e.X, e.Bytes = s.x, ev.Ints(s.m)
+	pi, hang := guarded(func() {
+		b2, err := s.c.marshalObj(s.obj)
+		e.Back, e.M2Err, e.Bytes2 = s.c.proj(s.obj), err != nil, ev.Ints(b2)
+	})
+	setPanic(&e, pi, hang)
+	r.W.Emit(e)
+}
 '''
 
 F16_TAIL = '''
